@@ -127,9 +127,85 @@ class PackageMemberSpec(Spec):
         return {'atoms': atoms, 'outcome': 'ok' if not atoms else 'bad', 'case': {'file': fname, 'style': style}, 'nontrivial': 1}
 
 
+class RedefinitionSpec(Spec):
+    """one name defined in two branches of which only one executes, and two module files with the same base name analysed
+    one after the other in one process (both: known findings F43 / F44 - the static reading cannot know which branch runs,
+    the dynamic one is answered from sys.modules)"""
+    prop = 'C16'
+    name = 'redefinitions'
+    title = 'same name in two branches; same module name in two directories'
+    CASES = ['if-else', 'if-else-second-runs', 'try-except', 'same-basename', 'same-basename-static-first']
+    max_len = 2
+
+    def __init__(self):
+        self.rule = 'cases %r x 3 styles; static and dynamic analysis must give the same identifiers with the same source; non-trivial = all' % (self.CASES,)
+
+    def histories(self, stats):
+        for c in self.CASES:
+            for st in layouts.STYLES:
+                yield (c, st)
+
+    def hist_cost(self, hist):
+        return 0
+
+    def run_case(self, hist):
+        case, style = hist
+        atoms = []
+        doc = 'def %s():\n    """\n    Example:\n        >>> print(%r)\n        %s\n    """\n'
+
+        def indent(t):
+            return ''.join('    ' + l + '\n' for l in t.split('\n') if l)
+        with harness.scratch_dir('c16r') as d:
+            mods = []
+            try:
+                if case.startswith('same-basename'):
+                    name = harness.unique_modname('m16same', case + style)
+                    paths = []
+                    for sub, tok in (('dirA', 'tok_in_a'), ('dirB', 'tok_in_b')):
+                        os.makedirs(os.path.join(d, sub))
+                        pth = os.path.join(d, sub, name + '.py')
+                        with open(pth, 'w') as f:
+                            f.write(doc % ('only_' + sub.lower(), tok, tok))
+                        paths.append(pth)
+                    mods.append(name)
+                    order = ('static', 'dynamic') if case.endswith('static-first') else ('dynamic', 'static')
+                    res = {}
+                    for pth in paths:
+                        for an in order:
+                            res[(pth, an)] = sorted((e.unique_callname, e.docsrc) for e in c07.collect(pth, style, an))
+                    pb = paths[1]
+                    if res[(pb, 'static')] != res[(pb, 'dynamic')]:
+                        atoms.append({'sig': 'redef:same-basename:dynamic-describes-the-module-imported-first',
+                                      'msg': 'style=%s: after dirA/%s.py was analysed, dirB/%s.py gives static %r, dynamic %r' % (
+                                          style, name, name, [r[0] for r in res[(pb, 'static')]], [r[0] for r in res[(pb, 'dynamic')]])})
+                else:
+                    a = doc % ('r', 'tok_first', 'tok_first')
+                    b = doc % ('r', 'tok_second', 'tok_second')
+                    if case == 'if-else':
+                        src = 'if True:\n' + indent(a) + 'else:\n' + indent(b)
+                    elif case == 'if-else-second-runs':
+                        src = 'if False:\n' + indent(a) + 'else:\n' + indent(b)
+                    else:
+                        src = 'try:\n' + indent(a) + 'except Exception:\n' + indent(b)
+                    name = harness.unique_modname('m16redef', src + style)
+                    mods.append(name)
+                    pth = os.path.join(d, name + '.py')
+                    with open(pth, 'w') as f:
+                        f.write(src)
+                    res = {an: sorted((e.unique_callname, e.docsrc) for e in c07.collect(pth, style, an)) for an in ('static', 'dynamic')}
+                    if res['static'] != res['dynamic']:
+                        atoms.append({'sig': 'redef:%s:static-reads-the-branch-that-does-not-run' % case,
+                                      'msg': 'style=%s: static %r, dynamic %r' % (style, res['static'], res['dynamic'])})
+            except Exception as ex:
+                atoms.append({'sig': 'redef:raises:' + type(ex).__name__, 'msg': repr(ex)})
+            finally:
+                harness.forget_modules(*mods)
+        return {'atoms': atoms, 'outcome': 'ok' if not atoms else 'differs', 'case': {'case': case, 'style': style}, 'nontrivial': 1}
+
+
 def specs(tier):
     if tier == 'thorough':
         return [StaticDynamicSpec('modules<=2', 2, 99), StaticDynamicSpec('modules=3', 3, 3, min_len=3),
-                StaticDynamicSpec('blocks<=3', 3, 99, blocks=True), PackageMemberSpec()]
+                StaticDynamicSpec('blocks<=3', 3, 99, blocks=True), PackageMemberSpec(), RedefinitionSpec()]
     return [StaticDynamicSpec('modules<=2', 2, 4), StaticDynamicSpec('modules=3', 3, 2, min_len=3),
-            StaticDynamicSpec('blocks<=2', 2, 99, blocks=True), PackageMemberSpec()]
+            StaticDynamicSpec('blocks<=2', 2, 99, blocks=True), PackageMemberSpec(), RedefinitionSpec()]
